@@ -229,13 +229,25 @@ def judge(chk: Check, prog, exp, res) -> None:
                                                                   "objects_added_by_25_repeats": res["growth"]})
 
 
-def body(chk: Check, *, n_programs: int, deep: int, machine: bool = True) -> None:
+def body(chk: Check, *, n_programs: int, deep: int, machine: bool = True, mc_nodes: int = 2) -> None:
     if machine:
         model_check_machine(chk)
     rnd = random.Random(chk.seed * 1000003 + 6)
     g = P.Gen(rnd, depth=deep, width=2, collide=False, provide=True, required=0.0, ncomps=(1, 3))
     progs = [g.program(i + 1, P.MODES[i % 2]) for i in range(n_programs)]
     exp = djc.oracle(progs)
+    # plus EVERY TLC-enumerated page of the 'provide' alphabet (providers at page level and inside a component
+    # template with several consumers, provider around a slot): exhaustive pages x exhaustive fault points
+    for mode in P.MODES:
+        mp, me, r = djc.mc_programs("provide", mode, mc_nodes)
+        chk.add("states", r.distinct)
+        chk.add("transitions", r.generated)
+        for q in mp:                       # mc_programs numbers pages 1..n and keys `me` by that id
+            e = me[q["id"]]
+            q["id"] = 10 ** 6 + len(progs)
+            exp[q["id"]] = e
+            progs.append(q)
+        chk.add("mc_pages_fault_enumerated", len(mp))
     keep = [p for p in progs if not exp[p["id"]]["zone"] and not exp[p["id"]]["err"] and exp[p["id"]]["insts"]]
     res = pmap(fault_case, keep, workers=12, per_item_s=120, chunk=5)
     nfaults = 0
@@ -328,9 +340,9 @@ def run(tier: str) -> int:
     boot.setup()
     chk = Check(PID, tier, "fault_enumeration")
     if tier == "quick":
-        body(chk, n_programs=700, deep=2)
+        body(chk, n_programs=450, deep=2)
     else:
-        body(chk, n_programs=3000, deep=3)
+        body(chk, n_programs=3000, deep=3, mc_nodes=3)
     chk.cov["rule"] = ("for every generated program (providers included) every index of a user-code invocation of its render is made "
                        "to raise (exhaustive per program), with exception classes rotating over str / int / errno / tuple / multi-line "
                        "first arguments; distinct by (program, fault index).")
